@@ -92,7 +92,11 @@ class Heap:
         return a
 
     def get(self, field, ref):
-        return z3.Select(self.arr(field), ref)
+        a = self.arr(field)
+        r = z3.Select(a, ref)
+        if z3.is_app(a) and a.decl().kind() == z3.Z3_OP_STORE:
+            r = z3.simplify(r)       # select-over-store at a syntactically equal index folds away
+        return r
 
     def put(self, field, ref, val):
         self.arrays[field] = z3.Store(self.arr(field), ref, val)
